@@ -16,7 +16,7 @@ LEVEL_RULE = (
 )
 EXHAUSTIVE_SUBDOMAINS = ["37 legal character codes x 8 positions x {ADS-B, BDS 2,0}", "TC 1-4 x category 0-7"]
 ASSUMPTIONS = ["six-bit alphabet per Annex 10: A-Z = 1..26, space = 32, 0-9 = 48..57"]
-REQUIRED = ["adsb", "bds20", "independence", "df17", "df18", "df20", "df21"] + ["tc%d" % t for t in (1, 2, 3, 4)]
+REQUIRED = ["header_bits_recur_inside_identification", "adsb", "bds20", "independence", "df17", "df18", "df20", "df21"] + ["tc%d" % t for t in (1, 2, 3, 4)]
 
 ALPHA = {**{chr(64 + i): i for i in range(1, 27)}, " ": 32, **{str(d): 48 + d for d in range(10)}}
 LEGAL = sorted(ALPHA)
@@ -35,6 +35,12 @@ def m_adsb(ctx, case):
     s8, tc, cat, df = case["cs"], case["tc"], case["cat"], case["df"]
     me = (tc << 51) | (cat << 48) | enc(s8)
     hx = bits.anypi(rng, "%028X" % bits.es_frame(df, rng.randrange(8), rng.fill(24), me))
+    if "hdr" in case:
+        # the first 40 bits of the frame (DF, CA, address, TC, category) RECUR inside the identification at bit offset `o`: a
+        # decoder that finds its field by searching for the header (split / partition / find) cuts at the wrong place
+        hx = "%028X" % bits.es_frame(df, (case["hdr"] >> 32) & 7, (case["hdr"] >> 8) & 0xFFFFFF, me)
+        assert int(hx, 16) >> 72 == case["hdr"]
+        ctx.hit("header_bits_recur_inside_identification")
     if case.get("lower"):
         hx = hx.lower()
     exp = s8.replace(" ", "_")
@@ -76,6 +82,10 @@ def m_bds20(ctx, case):
     s8, df = case["cs"], case["df"]
     mb = (0x20 << 48) | enc(s8)
     hx = "%028X" % bits.commb_frame(df, rng.fill(27), mb, rng.fill(24))
+    if "hdr" in case:
+        hx = "%028X" % bits.commb_frame(df, (case["hdr"] >> 8) & 0x7FFFFFF, mb, rng.fill(24))
+        assert int(hx, 16) >> 72 == case["hdr"]
+        ctx.hit("header_bits_recur_inside_identification")
     if case.get("lower"):
         hx = hx.lower()
     exp = s8.replace(" ", "_")
@@ -141,6 +151,24 @@ def cases(ctx):
                              "ch2": rng.choice(LEGAL), "lower": False}
                         yield "adsb", c
                         yield "bds20", dict(c, df=rng.choice((20, 21)))
+            i += 1
+    # the frame's first 40 bits recur inside the 48 identification bits at offset o (rejection sampling over legal identifications)
+    for o in range(9):
+        for kind in ("adsb", "bds20"):
+            if ctx.mine(i):
+                found = 0
+                for _ in range(400000):
+                    s = rs()
+                    h = (enc(s) >> (8 - o)) & ((1 << 40) - 1)
+                    dfv = h >> 35
+                    if kind == "adsb" and dfv in (17, 18) and 1 <= ((h >> 3) & 31) <= 4:
+                        yield "adsb", {"cs": s, "tc": (h >> 3) & 31, "cat": h & 7, "df": dfv, "pos": rng.randrange(8), "ch2": rng.choice(LEGAL), "hdr": h, "o": o}
+                        found += 1
+                    elif kind == "bds20" and dfv in (20, 21) and h & 0xFF == 0x20:
+                        yield "bds20", {"cs": s, "df": dfv, "pos": rng.randrange(8), "ch2": rng.choice(LEGAL), "hdr": h, "o": o}
+                        found += 1
+                    if found >= (12 if quick else 100):
+                        break
             i += 1
     for k in range(ctx.share(200000 if quick else 4000000)):
         s = rs() if k % 5 else rng.choice(("        ", "AAAAAAAA", "99999999", "Z       ", "       Z", "KLM1023 "))
